@@ -31,7 +31,7 @@ var bias = ls.Bias{
 }
 
 func TestScenarios(t *testing.T) {
-	rt.Check(t, 2000, 200000, func(t *rapid.T) {
+	rt.Check(t, 2000, 3000000, func(t *rapid.T) {
 		p := ls.GenProgram(bias).Draw(t, "program")
 		res, bubble := ls.RunInBubble(t, p)
 		if bubble != "" {
@@ -62,7 +62,7 @@ var anySize = ls.Bias{
 
 // TestBoundAnySize checks the "never more than laneSize at once" half for every configuration incl. a single lane.
 func TestBoundAnySize(t *testing.T) {
-	rt.Check(t, 1500, 100000, func(t *rapid.T) {
+	rt.Check(t, 1500, 1500000, func(t *rapid.T) {
 		p := ls.GenProgram(anySize).Draw(t, "program")
 		res, bubble := ls.RunInBubble(t, p)
 		if bubble != "" {
